@@ -23,6 +23,10 @@ class ShimGap(BaseException):
     analysis cannot swallow it"""
 
 
+class Skip(Abort):
+    """path outside this job's partition of the decision tree"""
+
+
 class Budget(BaseException):
     """exploration budget exhausted"""
 
@@ -31,7 +35,7 @@ class Budget(BaseException):
 class Explorer:
     cur = None
 
-    def __init__(self, timeout_ms=10000, max_paths=200000, max_seconds=None):
+    def __init__(self, timeout_ms=10000, max_paths=200000, max_seconds=None, split_atoms=False, feas_timeout_ms=None):
         self.solver = z3.Solver()
         self.timeout_ms = timeout_ms
         self.solver.set("timeout", timeout_ms)
@@ -49,6 +53,12 @@ class Explorer:
         self.t0 = time.time()
         self._fresh = 0
         self.notes = {}
+        self.split_atoms = split_atoms
+        self.feas_timeout_ms = feas_timeout_ms or timeout_ms
+        self.part = None      # (index, nparts, depth): explore only paths whose first `depth` decisions hash to index
+        self.known = {}       # atom id -> decision on the current path (split_atoms mode)
+        self.lazy = {}        # term id of an auxiliary symbol (uf_sqrt application) -> its defining constraint
+        self.active = set()   # lazy definitions already asserted on the current path
 
     # -- solver access
     def check(self, *extra):
@@ -66,15 +76,41 @@ class Explorer:
         self.defs.append(c)
         self.solver.add(c)
 
+    def add_lazy_def(self, term, c):
+        """definition asserted only once `term` occurs in a formula sent to the solver"""
+        self.lazy[term.get_id()] = (term, c)
+
+    def _activate(self, *exprs):
+        if not self.lazy:
+            return
+        stack = [x for x in exprs if isinstance(x, z3.ExprRef)]
+        seen = set()
+        while stack:
+            x = stack.pop()
+            i = x.get_id()
+            if i in seen:
+                continue
+            seen.add(i)
+            if i in self.lazy and i not in self.active:
+                self.active.add(i)
+                c = self.lazy[i][1]
+                self.defs.append(c)
+                self.solver.add(c)
+                stack.append(c)
+            stack.extend(x.children())
+
     def add_side(self, c):
         c = z3.simplify(c)
         if z3.is_true(c):
             return
+        # side conditions are NOT asserted into the feasibility solver (they are high-degree disequalities that
+        # would make every branch check non-linear); exploring without them is sound (more paths, never fewer).
+        # They are asserted in every end-of-path query.
         self.side.append(c)
-        self.solver.add(c)
 
     def assume(self, c):
         """harness-level assumption added on the current path"""
+        self._activate(c)
         self.solver.add(c)
         self.pc.append(c)
 
@@ -84,15 +120,53 @@ class Explorer:
             return True
         if z3.is_false(cond):
             return False
+        if self.split_atoms:
+            return self._decide_struct(cond)
+        return self._decide_atom(cond)
+
+    def _decide_struct(self, cond):
+        """branch on the atoms of a boolean combination (short-circuit), reusing atoms already decided on this
+        path; keeps every solver call small (DESIGN §2.4)"""
+        if z3.is_true(cond):
+            return True
+        if z3.is_false(cond):
+            return False
+        if z3.is_not(cond):
+            return not self._decide_struct(cond.arg(0))
+        if z3.is_and(cond):
+            for c in cond.children():
+                if not self._decide_struct(c):
+                    return False
+            return True
+        if z3.is_or(cond):
+            for c in cond.children():
+                if self._decide_struct(c):
+                    return True
+            return False
+        if z3.is_implies(cond):
+            return (not self._decide_struct(cond.arg(0))) or self._decide_struct(cond.arg(1))
+        k = cond.get_id()
+        if k in self.known:
+            return self.known[k]
+        r = self._decide_atom(cond)
+        self.known[k] = r
+        return r
+
+    def _decide_atom(self, cond):
+        self._activate(cond)
         i = len(self.trace)
         if i < len(self.prefix):
             taken = self.prefix[i]
             self.trace.append((cond, taken, False))
         else:
+            if self.feas_timeout_ms != self.timeout_ms:
+                self.solver.set("timeout", self.feas_timeout_ms)
             rt = self.check(cond)
             rf = self.check(z3.Not(cond))
+            if self.feas_timeout_ms != self.timeout_ms:
+                self.solver.set("timeout", self.timeout_ms)
             if rt == z3.unknown or rf == z3.unknown:
-                self.unknown_feas += 1
+                self.unknown_feas += 1   # kept as feasible: more paths, never fewer
             ft, ff = rt != z3.unsat, rf != z3.unsat
             if not ft and not ff:
                 raise Abort()
@@ -101,6 +175,12 @@ class Explorer:
         c = cond if taken else z3.Not(cond)
         self.solver.add(c)
         self.pc.append(c)
+        if self.part is not None and len(self.trace) == self.part[2]:
+            bits = 0
+            for _, t, _ in self.trace:
+                bits = bits * 2 + (1 if t else 0)
+            if (bits * 2654435761 >> 7) % self.part[1] != self.part[0]:
+                raise Skip()
         return taken
 
     def choose(self, n, label="choice"):
@@ -125,6 +205,9 @@ class Explorer:
             self.pc = list(base)
             self.defs = []
             self.side = []
+            self.lazy = {}
+            self.active = set()
+            self.known = {}
             self._fresh = 0
             self.solver.reset()
             self.solver.set("timeout", self.timeout_ms)
@@ -143,7 +226,9 @@ class Explorer:
                     cond, taken, both = self.trace[i]
                     if both:
                         stack.append([t for _, t, _ in self.trace[:i]] + [not taken])
-                if res is not None:
+                if res is not None and not (self.part is not None and len(self.trace) < self.part[2]
+                                            and self.part[0] != 0):
+                    # paths shorter than the partition depth belong to part 0
                     self.npaths += 1
                     yield self, res
             finally:
@@ -155,6 +240,10 @@ class Explorer:
         try:
             if timeout_ms:
                 self.solver.set("timeout", timeout_ms)
+            before = set(self.active)
+            self._activate(*extra, *self.side)
+            for e in self.side:
+                self.solver.add(e)
             for e in extra:
                 self.solver.add(e)
             r = self.check()
@@ -162,6 +251,10 @@ class Explorer:
             return r, m
         finally:
             self.solver.pop()
+            # lazy definitions activated inside the push/pop frame are gone with it
+            for i in self.active - before:
+                self.defs.remove(self.lazy[i][1])
+            self.active = before
             if timeout_ms:
                 self.solver.set("timeout", self.timeout_ms)
 
@@ -197,17 +290,17 @@ def lift(x):
     if isinstance(x, (SV, SC)):
         return x
     if isinstance(x, SB):
-        return SV(z3.If(x.b, z3.RealVal(1), z3.RealVal(0)))
+        return SV(z3.If(x.b, z3.RealVal(1), z3.RealVal(0)), nn=True)
     if isinstance(x, (bool, np.bool_)):
-        return SV(z3.RealVal(int(x)))
+        return SV(z3.RealVal(int(x)), nn=True)
     if isinstance(x, (int, np.integer)):
-        return SV(z3.RealVal(int(x)))
+        return SV(z3.RealVal(int(x)), nn=int(x) >= 0)
     if isinstance(x, (float, np.floating)):
         if x != x:
             return SV(z3.RealVal(0), TRUE)
         if x in (float("inf"), float("-inf")):
             raise ShimGap("infinite constant")
-        return SV(_ratval(x))
+        return SV(_ratval(x), nn=float(x) >= 0)
     if isinstance(x, (complex, np.complexfloating)):
         if x != x:
             return SC(z3.RealVal(0), z3.RealVal(0), TRUE)
@@ -331,13 +424,15 @@ class SV:
     self is the non-negative square root of `sq`, so self*self and self**2 reduce syntactically."""
 
     __array_priority__ = 1000
-    __slots__ = ("v", "nan", "sq", "d")
+    __slots__ = ("v", "nan", "sq", "d", "nn", "dp")
 
-    def __init__(self, v, nan=None, sq=None, d=None):
+    def __init__(self, v, nan=None, sq=None, d=None, nn=False, dp=None):
         self.v = v
         self.nan = FALSE if nan is None else nan
         self.sq = sq
         self.d = d
+        self.nn = nn                        # value known to be >= 0 (by construction or declared)
+        self.dp = (d is None) if dp is None else dp   # denominator known to be > 0
 
     @property
     def z(self):
@@ -360,10 +455,11 @@ class SV:
         nan = _or(self.nan, o.nan)
         ov = o.v if sign == 1 else -o.v
         if _deq(self.d, o.d):
-            return SV(self.v + ov, nan, d=self.d)
+            return SV(self.v + ov, nan, d=self.d, nn=self.nn and o.nn and sign == 1, dp=self.dp)
         sd = self.d if self.d is not None else z3.RealVal(1)
         od = o.d if o.d is not None else z3.RealVal(1)
-        return SV(self.v * od + ov * sd, nan, d=_dmul(self.d, o.d))
+        return SV(self.v * od + ov * sd, nan, d=_dmul(self.d, o.d), nn=self.nn and o.nn and sign == 1,
+                  dp=self.dp and o.dp)
 
     __radd__ = __add__
 
@@ -380,8 +476,9 @@ class SV:
         if o2 is None:
             return NotImplemented
         if self.sq is not None and o2.sq is not None and (o2 is self or (z3.eq(o2.v, self.v) and _deq(o2.d, self.d))):
-            return SV(self.sq.v, _or(self.nan, o2.nan), d=self.sq.d)
-        return SV(self.v * o2.v, _or(self.nan, o2.nan), d=_dmul(self.d, o2.d))
+            return SV(self.sq.v, _or(self.nan, o2.nan), d=self.sq.d, nn=True, dp=self.sq.dp)
+        return SV(self.v * o2.v, _or(self.nan, o2.nan), d=_dmul(self.d, o2.d), nn=self.nn and o2.nn,
+                  dp=self.dp and o2.dp)
 
     __rmul__ = __mul__
 
@@ -390,7 +487,7 @@ class SV:
             return NotImplemented
         o = lift(o)
         if isinstance(o, SC):
-            return SC(self.v, z3.RealVal(0), self.nan, d=self.d) / o
+            return SC(self.v, z3.RealVal(0), self.nan, d=self.d, dp=self.dp) / o
         if Explorer.cur is not None:
             Explorer.cur.add_side(o.v != 0)
         num = self.v if o.d is None else self.v * o.d
@@ -398,8 +495,10 @@ class SV:
         sn = z3.simplify(den)
         if z3.is_rational_value(sn):   # constant divisor: keep the term division-free
             rc = Fraction(sn.denominator_as_long(), sn.numerator_as_long())
-            return SV(num * z3.Q(rc.numerator, rc.denominator), _or(self.nan, o.nan))
-        return SV(num, _or(self.nan, o.nan), d=den)
+            return SV(num * z3.Q(rc.numerator, rc.denominator), _or(self.nan, o.nan), nn=self.nn and rc > 0 and o.dp
+                      and self.d is None)
+        # a/(b.v/b.d) = a.v*b.d / (a.d*b.v): positive denominator iff a.d > 0 and b.v > 0
+        return SV(num, _or(self.nan, o.nan), d=den, nn=self.nn and o.nn and o.dp, dp=self.dp and o.nn and o.dp)
 
     def __rtruediv__(self, o):
         if isinstance(o, np.ndarray):
@@ -419,7 +518,7 @@ class SV:
         if k < 0:
             return lift(1) / (self ** (-k))
         if k % 2 == 0 and self.sq is not None:
-            r = SV(self.sq.v, self.nan, d=self.sq.d)
+            r = SV(self.sq.v, self.nan, d=self.sq.d, nn=True, dp=self.sq.dp)
             return r if k == 2 else r ** (k // 2)
         r = self
         for _ in range(k - 1):
@@ -427,16 +526,18 @@ class SV:
         return r
 
     def __neg__(self):
-        return SV(-self.v, self.nan, d=self.d)
+        return SV(-self.v, self.nan, d=self.d, dp=self.dp)
 
     def __pos__(self):
         return self
 
     def __abs__(self):
-        if self.sq is not None:
+        if self.sq is not None or self.nn:
             return self
+        if self.dp:
+            return SV(z3.If(self.v >= 0, self.v, -self.v), self.nan, d=self.d, nn=True, dp=True)
         z = self.z
-        return SV(z3.If(z >= 0, z, -z), self.nan)
+        return SV(z3.If(z >= 0, z, -z), self.nan, nn=True)
 
     # ---- comparisons (IEEE: false with NaN)
     def _cmp(self, o, f, eq=False):
@@ -449,11 +550,11 @@ class SV:
             a, b = self.sq, o.sq   # both non-negative: order of roots = order of squares
         else:
             a, b = self, o
-        if eq and not _deq(a.d, b.d):
+        if (eq or (a.dp and b.dp)) and not _deq(a.d, b.d):
             ad = a.d if a.d is not None else z3.RealVal(1)
             bd = b.d if b.d is not None else z3.RealVal(1)
-            g = f(a.v * bd, b.v * ad)     # denominators are non-zero by side condition
-        elif eq:
+            g = f(a.v * bd, b.v * ad)     # eq: denominators non-zero by side condition; order: both positive
+        elif eq or (a.dp and b.dp):
             g = f(a.v, b.v)
         else:
             g = f(a.z, b.z)
@@ -512,12 +613,12 @@ class SV:
             if fr >= 0:
                 rn, rd = math.isqrt(fr.numerator), math.isqrt(fr.denominator)
                 if rn * rn == fr.numerator and rd * rd == fr.denominator:
-                    return SV(z3.Q(rn, rd), self.nan)
+                    return SV(z3.Q(rn, rd), self.nan, nn=True)
         f = z3.Function("uf_sqrt", z3.RealSort(), z3.RealSort())
         s = f(z)
-        e.add_def(z3.And(s >= 0, s * s == z) if self.d is None else z3.And(s >= 0, s * s * self.d == self.v))
-        e.add_side(z >= 0)
-        return SV(s, self.nan, sq=SV(self.v, self.nan, d=self.d))
+        e.add_lazy_def(s, z3.And(s >= 0, s * s == z, z >= 0) if self.d is None
+                       else z3.And(s >= 0, s * s * self.d == self.v, z >= 0))
+        return SV(s, self.nan, sq=SV(self.v, self.nan, d=self.d, nn=True, dp=self.dp), nn=True)
 
     def _uf(self, name):
         f = z3.Function(name, z3.RealSort(), z3.RealSort())
@@ -542,7 +643,7 @@ class SV:
         return self
 
     def copy(self):
-        return SV(self.v, self.nan, self.sq, self.d)
+        return SV(self.v, self.nan, self.sq, self.d, self.nn, self.dp)
 
     def item(self):
         return self
@@ -577,20 +678,21 @@ def toc(x):
     x = lift(x)
     if isinstance(x, SC):
         return x
-    return SC(x.v, z3.RealVal(0), x.nan, d=x.d)
+    return SC(x.v, z3.RealVal(0), x.nan, d=x.d, dp=x.dp)
 
 
 class SC:
     """complex number (re + i im)/d with real polynomial terms re, im, d (d None = 1) and one NaN flag"""
 
     __array_priority__ = 1000
-    __slots__ = ("re", "im", "nan", "d")
+    __slots__ = ("re", "im", "nan", "d", "dp")
 
-    def __init__(self, re, im, nan=None, d=None):
+    def __init__(self, re, im, nan=None, d=None, dp=None):
         self.re = re
         self.im = im
         self.nan = FALSE if nan is None else nan
         self.d = d
+        self.dp = (d is None) if dp is None else dp   # denominator known to be > 0
 
     @property
     def rez(self):
@@ -612,10 +714,10 @@ class SC:
         nan = _or(self.nan, o.nan)
         ore, oim = (o.re, o.im) if sign == 1 else (-o.re, -o.im)
         if _deq(self.d, o.d):
-            return SC(self.re + ore, self.im + oim, nan, d=self.d)
+            return SC(self.re + ore, self.im + oim, nan, d=self.d, dp=self.dp)
         sd = self.d if self.d is not None else z3.RealVal(1)
         od = o.d if o.d is not None else z3.RealVal(1)
-        return SC(self.re * od + ore * sd, self.im * od + oim * sd, nan, d=_dmul(self.d, o.d))
+        return SC(self.re * od + ore * sd, self.im * od + oim * sd, nan, d=_dmul(self.d, o.d), dp=self.dp and o.dp)
 
     __radd__ = __add__
 
@@ -632,7 +734,7 @@ class SC:
         if o is None:
             return NotImplemented
         return SC(self.re * o.re - self.im * o.im, self.re * o.im + self.im * o.re, _or(self.nan, o.nan),
-                  d=_dmul(self.d, o.d))
+                  d=_dmul(self.d, o.d), dp=self.dp and o.dp)
 
     __rmul__ = __mul__
 
@@ -651,8 +753,9 @@ class SC:
         sn = z3.simplify(n2)
         if z3.is_rational_value(sn):
             rc = z3.Q(sn.denominator_as_long(), sn.numerator_as_long())
-            return SC(re * rc, im * rc, _or(self.nan, o.nan), d=self.d)
-        return SC(re, im, _or(self.nan, o.nan), d=_dmul(self.d, n2))
+            return SC(re * rc, im * rc, _or(self.nan, o.nan), d=self.d, dp=self.dp)
+        # n2 = |numerator of o|^2 > 0 by side condition
+        return SC(re, im, _or(self.nan, o.nan), d=_dmul(self.d, n2), dp=self.dp)
 
     def __rtruediv__(self, o):
         if isinstance(o, np.ndarray):
@@ -668,13 +771,14 @@ class SC:
         return r
 
     def __neg__(self):
-        return SC(-self.re, -self.im, self.nan, d=self.d)
+        return SC(-self.re, -self.im, self.nan, d=self.d, dp=self.dp)
 
     def __pos__(self):
         return self
 
     def abs2(self):
-        return SV(self.re * self.re + self.im * self.im, self.nan, d=None if self.d is None else self.d * self.d)
+        return SV(self.re * self.re + self.im * self.im, self.nan, d=None if self.d is None else self.d * self.d,
+                  nn=True, dp=True)
 
     def __abs__(self):
         si = z3.simplify(self.im)
@@ -683,17 +787,17 @@ class SC:
         return self.abs2().sqrt()
 
     def conjugate(self):
-        return SC(self.re, -self.im, self.nan, d=self.d)
+        return SC(self.re, -self.im, self.nan, d=self.d, dp=self.dp)
 
     conj = conjugate
 
     @property
     def real(self):
-        return SV(self.re, self.nan, d=self.d)
+        return SV(self.re, self.nan, d=self.d, dp=self.dp)
 
     @property
     def imag(self):
-        return SV(self.im, self.nan, d=self.d)
+        return SV(self.im, self.nan, d=self.d, dp=self.dp)
 
     def __eq__(self, o):
         if isinstance(o, np.ndarray):
@@ -724,7 +828,7 @@ class SC:
         return self
 
     def copy(self):
-        return SC(self.re, self.im, self.nan, self.d)
+        return SC(self.re, self.im, self.nan, self.d, self.dp)
 
     def item(self):
         return self
@@ -783,11 +887,12 @@ def ite(c, a, b):
     if isinstance(a, SC) or isinstance(b, SC):
         a, b = toc(a), toc(b)
         if _deq(a.d, b.d):
-            return SC(z3.If(c, a.re, b.re), z3.If(c, a.im, b.im), z3.simplify(z3.If(c, a.nan, b.nan)), d=a.d)
+            return SC(z3.If(c, a.re, b.re), z3.If(c, a.im, b.im), z3.simplify(z3.If(c, a.nan, b.nan)), d=a.d,
+                      dp=a.dp and b.dp)
         return SC(z3.If(c, a.rez, b.rez), z3.If(c, a.imz, b.imz), z3.simplify(z3.If(c, a.nan, b.nan)))
     if _deq(a.d, b.d):
-        return SV(z3.If(c, a.v, b.v), z3.simplify(z3.If(c, a.nan, b.nan)), d=a.d)
-    return SV(z3.If(c, a.z, b.z), z3.simplify(z3.If(c, a.nan, b.nan)))
+        return SV(z3.If(c, a.v, b.v), z3.simplify(z3.If(c, a.nan, b.nan)), d=a.d, nn=a.nn and b.nn, dp=a.dp and b.dp)
+    return SV(z3.If(c, a.z, b.z), z3.simplify(z3.If(c, a.nan, b.nan)), nn=a.nn and b.nn)
 
 
 NAN = float("nan")
